@@ -173,8 +173,76 @@ def build_queries(prog, kind):
     return out
 
 
+def numeric_literal_programs():
+    """Negative numbers, booleans, null and dates as literals (also under negation: `--7` would be a comment)."""
+    rows = [[i, v, w, b, d] for i, (v, w, b, d) in enumerate([(-7, 0.5, True, "2020-02-29"), (0, -2.5, False, "1999-12-31"), (3, None, None, None), (None, 7.5, True, "2024-01-01")])]
+    tbl = {"handle": "T0", "name": "t", "schema": [["k", "Int64"], ["x", "Int64"], ["f", "Float64"], ["b", "Bool"], ["d", "Date"]], "rows": rows, "shape": "literal_types"}
+    x, f, b, d = col("T0", "x"), col("T0", "f"), col("T0", "b"), col("T0", "d")
+    for n in (-7, -1, 0, 2):
+        for fl in (-0.5, -2.25, 1.5):
+            kw = [
+                ["neg_lit", fn("neg", lit(n) | {"wrap": True})],
+                ["neg_neg", fn("neg", fn("neg", x))],
+                ["sub_neg", fn("sub", x, lit(n))],
+                ["lit_sub", fn("sub", lit(n), x)],
+                ["neg_of_sub", fn("neg", fn("sub", lit(n), x))],
+                ["mul_neg", fn("mul", x, lit(n))],
+                ["fneg", fn("neg", fn("mul", f, lit(fl)))],
+                ["fsub", fn("sub", lit(fl), fn("neg", f))],
+                ["eq", fn("eq", x, lit(n))],
+                ["is_in", fn("is_in", x, lit(n), lit(-3))],
+                ["case", {"k": "case", "cases": [[fn("lt", x, lit(n)), lit(n)], [b, fn("neg", lit(n) | {"wrap": True})]], "default": lit(None)}],
+                ["fill", fn("fill_null", x, lit(n))],
+                ["bool_lit", fn("and", b, lit(True))],
+                ["bool_or_false", fn("or", fn("eq", b, lit(False)), lit(False))],
+                ["date_cmp", fn("ge", d, lit("2020-02-29", "date"))],
+                ["date_fill", fn("fill_null", d, lit("1999-12-31", "date"))],
+                ["const_neg", lit(n)],
+                ["const_f", lit(fl)],
+                ["clip", fn("clip", x, lit(min(n, 0) - 1), lit(3))],
+            ]
+            steps = [{"in": "T0", "out": "T1", "verb": "mutate", "kw": kw},
+                     {"in": "T0", "out": "T2", "verb": "filter", "preds": [fn("gt", fn("neg", x), lit(n))]}]
+            yield {"tables": [tbl], "steps": steps, "probes": ["T1", "T2"], "meta": {"literal": [n, fl]}}
+
+
+def comment_problems(sql):
+    sk, _ = skeleton(sql)
+    if sk is None:
+        return ["unterminated literal"]
+    probs = []
+    if "--" in sk:
+        probs.append("`--` outside string literals (SQL comment)")
+    if "/*" in sk:
+        probs.append("`/*` outside string literals (SQL comment)")
+    return probs
+
+
 def execute(run, prop, shard):
     rng = random.Random(f"C18:{run.seed}:{run.tier}")
+    cache0 = {}
+    for prog in numeric_literal_programs():
+        out = runner.run_program(prog, opts={"reexport_every": 0}, be_cache=cache0)
+        run.case(shape=("numeric_literals", tuple(prog["meta"]["literal"])), nontrivial=True,
+                 sample=({"numeric_literals": prog["meta"]["literal"], "positions": [k for k, _ in prog["steps"][0]["kw"]]} if run.evaluations == 0 else None))
+        run.counters["probes_judged"] += out.probes_judged
+        run.counters["numeric_literal_positions"] += len(prog["steps"][0]["kw"]) + 1
+        for f in out.findings:
+            if f.kind != "harness":
+                def still(q, f0=f):
+                    oo = runner.run_program(q, opts={"reexport_every": 0})
+                    return any(g.kind == f0.kind and g.exc == f0.exc and g.backend == f0.backend for g in oo.findings)
+
+                run.finding(f, prog, owned=f.kind.startswith(("value:", "exc:", "sql")), reshrink=still)
+        for kind in ("sqlite", "postgres", "mssql"):
+            for h, q in build_queries(prog, kind).items():
+                if isinstance(q, Exception):
+                    run.finding(Finding("structure", kind, h, f"numeric literals {prog['meta']['literal']}: build_query raised {type(q).__name__}: {str(q)[:200]}",
+                                        exc=type(q).__name__, extra={"feature": None}), None)
+                    continue
+                run.counters[f"statements_lexed:{kind}"] += 1
+                for p in comment_problems(q) + structure_problems(q, q, kind)[2:]:
+                    run.finding(Finding("structure", kind, h, f"numeric literals {prog['meta']['literal']} on {kind}: {p}: {q[:160]}", extra={"feature": None}), None)
     cache = {}
     lits = literal_pool(run.tier, run.seed)
     benign = {}
